@@ -181,11 +181,26 @@ def check_lookaside(ctx, model):
                   and e.arg == ("self", "_cache")]
         lookups = [e for e in ps.events if e.kind == "selfattrcall"
                    and e.value == ("self", "_cache") and e.name == "get"]
+        try_form = False
         if not lookups:
-            ctx.ob("P/CachedMapper.__call__/lookup-first", False, loc,
-                   "a path through CachedMapper.__call__ never consults the cache")
-            continue
-        lk = lookups[0]
+            # try: return self._cache[key] / except KeyError: compute
+            key = ps.env.get("cache_key") or ps.env.get("key")
+            missed = any(isinstance(v, tuple) and v[0] == "except"
+                         and "KeyError" in v[1] for _, _, v in ps.conds)
+            hit_rv = rv[0] == "index" and rv[1] == ("self", "_cache")
+            if key is not None and (missed or hit_rv):
+                try_form = True
+                if hit_rv:
+                    key = rv[3] if len(rv) > 3 else key
+            else:
+                ctx.ob("P/CachedMapper.__call__/lookup-first", False, loc,
+                       "a path through CachedMapper.__call__ never consults the "
+                       "cache")
+                continue
+
+        class _LK:
+            args = (key, ("global", "_NOT_IN_CACHE")) if try_form else None
+        lk = lookups[0] if lookups else _LK
         key = lk.args[0]
         key_values.add(key)
         key_ok = key[0] == "call" and key[1] == "self.get_cache_key" and \
@@ -196,10 +211,11 @@ def check_lookaside(ctx, model):
         ctx.ob("P/CachedMapper.__call__/key-from-all-inputs", bool(key_ok), loc,
                "key = get_cache_key(expr, *args, **kwargs)" if key_ok else
                "the cache key is not get_cache_key(expr, *args, **kwargs)")
-        is_hit = rv[0] == "call" and rv[1].endswith("_cache.get")
+        is_hit = (rv[0] == "call" and rv[1].endswith("_cache.get")) or (
+            try_form and rv[0] == "index" and rv[1] == ("self", "_cache"))
         if is_hit:
             n_hit += 1
-            guard = any(
+            guard = try_form or any(
                 pol and isinstance(v, tuple) and v[0] == "compare"
                 and v[1] == ("IsNot",) and v[3][0] == ("global", "_NOT_IN_CACHE")
                 for _, pol, v in ps.conds) or any(
